@@ -16,8 +16,8 @@ type cfgCase struct {
 	N       int      `json:"n"`
 	Mask    uint32   `json:"mask"`
 	Life    []string `json:"life"`
-	Target  []string `json:"target"` // plain | keyed | group | alias
-	Shape   string   `json:"shape"`  // in | positional
+	Target  []string `json:"target"`             // plain | keyed | group | alias
+	Shape   string   `json:"shape"`              // in | positional
 	Missing uint32   `json:"missing,omitempty"`  // bit j: service j is NOT registered
 	OptMask uint32   `json:"optional,omitempty"` // bit i*N+j: the edge is optional
 	Kind    []string `json:"kind,omitempty"`     // per service: "" | void | voiderr
